@@ -126,7 +126,7 @@ def gen_structured(rng):
     depth and length that meet through a barrier; a long chain beside a short operation followed by a repeated two-qubit-wide block;
     an operation JOINED_END to a shorter one inside a doubly nested block that ends last."""
     ds = [0.25, 0.5, 1.0, 2.0, 3.0, 5.0]
-    shape = rng.choice(['parallel', 'parallel', 'plain-first', 'two-branch', 'chain-then-block', 'early-start'])
+    shape = rng.choice(['parallel', 'parallel', 'plain-first', 'two-branch', 'chain-then-block', 'early-start', 'placeholder'])
     if shape == 'parallel':
         da, db = rng.sample(ds, 2)
         blocks = [{'t': 'sub', 'reps': rng.choice([1, 1, 2]), 'body': [_w(0, da)] * rng.randint(1, 2)},
@@ -172,6 +172,21 @@ def gen_structured(rng):
         head = [_g('Rx180', 0) for _ in range(n)] + [_w(1, rng.choice([0.5, 1.0]))]
         block = {'t': 'sub', 'reps': rng.choice([2, 3]), 'body': [_g('Rx90', 0), _w(1, rng.choice([3.0, 5.0]))] + ([_g('Ry90', 2)] if rng.random() < 0.4 else [])}
         prog = ([{'t': 'sub', 'reps': 1, 'body': head}] if rng.random() < 0.5 else head) + [block]
+    elif shape == 'placeholder':
+        # three or more chains of different length on different qubits, then an operation that occupies NO channel (an empty
+        # sub-circuit), then operations related to it
+        lens = rng.sample([1, 2, 3, 4], rng.randint(3, 4))
+        prog = []
+        for q, n in enumerate(lens):
+            prog += [_g(rng.choice(['Rx180', 'Ry90', 'Identity']), q) for _ in range(n)]
+        rng.shuffle(prog)
+        ph = len(prog)
+        prog.append({'t': 'sub', 'reps': rng.choice([1, 1, 2]), 'body': []})
+        prog.append(_g('Identity', rng.randrange(len(lens)), rel=[rng.choice('SFE'), ph]))
+        if rng.random() < 0.5:
+            prog.append(_w(rng.randrange(len(lens)), 1.0, rel=[rng.choice('SF'), ph]))
+        if rng.random() < 0.4:
+            prog = [{'t': 'sub', 'reps': 1, 'body': prog}]
     else:   # early-start: an operation that starts before the first operation of a doubly nested block which ends last
         a = _w(0, 1.0)
         b = _w(1, rng.choice([2.0, 3.0, 5.0]), rel=['E', 0])
